@@ -297,6 +297,18 @@ theorem fact_registered_first_segments :
        "/oauth2".toList, "/public".toList, "/statuslist".toList] ∧
     (∀ s ∈ Facts.C04.registeredFirstSegments, s.map toLowerC ∈ Facts.C04.internalBinds → s ∈ Facts.C04.internalBinds) := by decide
 
+/-- the same over EVERY route registration found by go/ast (109 at the time of writing), the path argument evaluated as a
+    constant expression (literals, `+`, package constants such as core/status `statusEndpoint`, the `baseURL` of generated
+    wrappers): all paths evaluate, the literal scan above is contained in it, and no first segment is a case variant of an
+    internal bind -/
+theorem fact_route_first_segments_ast :
+    Facts.C04.routeFirstSegments =
+      ["/".toList, "/.well-known".toList, "/discovery".toList, "/health".toList, "/iam".toList, "/internal".toList, "/metrics".toList,
+       "/n2n".toList, "/oauth2".toList, "/public".toList, "/status".toList, "/statuslist".toList] ∧
+    Facts.C04.routePathsNotEvaluated = [] ∧ 0 < Facts.C04.routeRegistrationsSeen ∧
+    (∀ s ∈ Facts.C04.registeredFirstSegments, s ∈ Facts.C04.routeFirstSegments) ∧
+    (∀ s ∈ Facts.C04.routeFirstSegments, s.map toLowerC ∈ Facts.C04.internalBinds → s ∈ Facts.C04.internalBinds) := by decide
+
 /-- the default configuration uses two different listener addresses (so `internal_never_public` applies to it) -/
 theorem fact_default_addresses_differ :
     Facts.C04.defaultInternalAddress = "127.0.0.1:8081" ∧ Facts.C04.defaultPublicAddress = ":8080" ∧
